@@ -162,7 +162,8 @@ def fsize_task(task):
         if q not in before and after[q][0] != "d":
             problems.append("left behind: %r (%d bytes)" % (q[-60:], len(after[q][1]) if isinstance(after[q][1], bytes) else -1))
     return {"key": (i, kind, len(d), lim), "long": len(d) > 1000,
-            "bad": [{"verdict": "; ".join(problems[:5]), "stderr": repr(o["stderr"][-300:]), "exc": o.get("exc"), "world": jsonable(world)}] if problems else []}
+            "bad": [{"verdict": "; ".join(problems[:5]), "stderr": repr(o["stderr"][-300:]), "exc": o.get("exc"), "world": jsonable(world),
+                     "directed": {"fn": "fsize_task", "task": {"seed": task["seed"], "i": task["i"]}}}] if problems else []}
 
 
 def base_task(task):
@@ -234,6 +235,11 @@ def run(tier, seed):
 
 
 def replay(path):
+    import sys
+    from ..core import replay_directed
+    rc = replay_directed(sys.modules[__name__], "C17", path)
+    if rc is not None:
+        return rc
     obj = unjsonable(json.load(open(path)))
     cases = []
     if isinstance(obj.get("replay"), dict) and obj["replay"].get("world"):
